@@ -212,6 +212,38 @@ func persistRule(c *Ctx, rule string, anchor *ssa.Function) {
 				}
 				return false
 			}
+			// a helper that is handed a local struct holding the current bitmap in a field (`run.store(bucket)`): if it
+			// serialises that field into the data bucket on every successful path on which the field is non-nil, the bitmap
+			// is persisted
+			if h := calleeFunc(&call.Call); h != nil && c.w.inModule(h) && h.Blocks != nil {
+				for k, a := range call.Call.Args {
+					al, isAl := peelCell(a).(*ssa.Alloc)
+					if !isAl || k >= len(h.Params) {
+						continue
+					}
+					stt, isStruct := al.Type().Underlying().(*types.Pointer).Elem().Underlying().(*types.Struct)
+					if !isStruct {
+						continue
+					}
+					for fi := 0; fi < stt.NumFields(); fi++ {
+						if !typeIs(stt.Field(fi).Type(), roaringPkg, "Bitmap") {
+							continue
+						}
+						cur, ok := st.fcell[fieldCell{al, fi}]
+						if !ok || isNilConst(cur) {
+							continue
+						}
+						id := st.inst[cur]
+						if id == 0 {
+							continue
+						}
+						if persistsField(c, h, h.Params[k], fi) {
+							nPut++
+							delete(st.user, fmt.Sprintf("dirty:%d", id))
+						}
+					}
+				}
+			}
 			// a helper that serialises one of its bitmap parameters into the data bucket on every successful path
 			if h := calleeFunc(&call.Call); h != nil && c.w.inModule(h) && h.Blocks != nil && (h.Signature.Recv() == nil || !typeIs(h.Signature.Recv().Type(), roaringPkg, "Bitmap")) {
 				for k, a := range call.Call.Args {
@@ -727,6 +759,86 @@ func persistsParam(c *Ctx, h *ssa.Function, p ssa.Value) bool {
 		return false
 	}
 	return c.fc.pathAvoiding(h, nil, isOK, isPut) == nil
+}
+
+// persistsField: on every successful path of h on which field fi of the struct its parameter p points to is non-nil, h
+// writes the serialisation of that field's bitmap under a bitmap key. (The nil case is the "no run started yet" state;
+// the caller's typestate knows whether the field is nil at the call.)
+func persistsField(c *Ctx, h *ssa.Function, p ssa.Value, fi int) bool {
+	isFieldLoad := func(v ssa.Value) bool {
+		ld, ok := peel(v).(*ssa.UnOp)
+		if !ok || ld.Op != token.MUL {
+			return false
+		}
+		fa, ok := ld.X.(*ssa.FieldAddr)
+		return ok && fa.Field == fi && peel(fa.X) == p
+	}
+	isPut := func(i ssa.Instruction) bool {
+		call, ok := i.(*ssa.Call)
+		if !ok || calleeName(&call.Call) != boltPut || keyKind(c, call.Call.Args[1]) != "value" {
+			return false
+		}
+		e, ok := call.Call.Args[2].(*ssa.Extract)
+		if !ok || e.Index != 0 {
+			return false
+		}
+		tb, ok := e.Tuple.(*ssa.Call)
+		if !ok {
+			return false
+		}
+		n := calleeName(&tb.Call)
+		if !strings.HasSuffix(n, ".ToBytes") && !strings.HasSuffix(n, ".MarshalBinary") {
+			return false
+		}
+		return isFieldLoad(tb.Call.Args[0])
+	}
+	isOK := func(i ssa.Instruction) bool {
+		if isSuccessReturn(i) {
+			return true
+		}
+		if r, ok := i.(*ssa.Return); ok && len(r.Results) == 0 {
+			return true
+		}
+		// `return bucket.Put(...)`: the returned error is the Put's own result — successful exactly when the Put was
+		if r, ok := i.(*ssa.Return); ok && len(r.Results) == 1 {
+			if pc, ok := r.Results[0].(*ssa.Call); ok && isPutCall(c, pc, isFieldLoad) {
+				return false
+			}
+		}
+		return false
+	}
+	nilEdge := func(pred, succ *ssa.BasicBlock) bool {
+		iff, ok := pred.Instrs[len(pred.Instrs)-1].(*ssa.If)
+		if !ok || len(pred.Succs) != 2 {
+			return false
+		}
+		for _, cm := range trueCmps(fact{iff.Cond, pred.Succs[0] == succ}) {
+			if cm.Op == token.EQL && cm.Y != nil && ((isFieldLoad(cm.X) && isNilConst(cm.Y)) || (isFieldLoad(cm.Y) && isNilConst(cm.X))) {
+				return true
+			}
+		}
+		return false
+	}
+	// some path must reach a Put at all
+	has := false
+	allInstrs(h, func(i ssa.Instruction) {
+		if isPut(i) {
+			has = true
+		}
+	})
+	return has && c.fc.pathFrom(h, nil, isOK, isPut, nilEdge) == nil
+}
+
+func isPutCall(c *Ctx, call *ssa.Call, isBM func(ssa.Value) bool) bool {
+	if calleeName(&call.Call) != boltPut || keyKind(c, call.Call.Args[1]) != "value" {
+		return false
+	}
+	e, ok := call.Call.Args[2].(*ssa.Extract)
+	if !ok || e.Index != 0 {
+		return false
+	}
+	tb, ok := e.Tuple.(*ssa.Call)
+	return ok && isBM(tb.Call.Args[0])
 }
 
 // schemaAddRule: schema.add records every (column, value) pair it is given. For each of its two maps (columns by name,
